@@ -66,6 +66,11 @@ func plainM(m int) string {
 		return ""
 	case 9:
 		return fmt.Sprintf("m%d\xff\xfe\x00\x80", m)
+	case 7:
+		// a value that looks like the filter's own output: it is a byte string like any other
+		return "encrypted:" + base64.RawURLEncoding.EncodeToString([]byte(fmt.Sprintf("blob-%d", m)))
+	case 11:
+		return "hmac-sha256:" + base64.RawURLEncoding.EncodeToString([]byte(fmt.Sprintf("%032d", m)))
 	}
 	return fmt.Sprintf("m%d", m)
 }
@@ -187,6 +192,13 @@ func (r *rotPayload) HmacInfo() []byte          { return r.info }
 var tagPool = []string{"public", "sensitive", "secret", "sensitive,redact", "sensitive,hmac-sha256", "secret,encrypt", "secret,hmac-sha256", "secret,HMAC-SHA256",
 	"sensitive,ENCRYPT", "Sensitive", "PUBLIC", "bogus", "sensitive,bogus", "secret,", "public,redact", "", "sensitive,redact,extra", ",redact", "secret,Redact"}
 
+type lookalike struct {
+	E string `class:"sensitive"`
+	H string `class:"sensitive,hmac-sha256"`
+	B []byte `class:"sensitive"`
+	X string `class:"secret,encrypt"`
+}
+
 // namedTM: a Taggable map whose values are byte strings of several types
 type namedTM map[string]interface{}
 type namedToken []byte
@@ -213,9 +225,12 @@ func encryptMain(args []string) {
 	o := openOut(*out)
 	p := newPrng(*seed)
 	h := &encHarness{wrappers: map[int]wrapping.Wrapper{}, st: st}
+	perProp := map[string]int{}
 	oracle := func(f string, a ...any) {
 		st.hit("oracle-failure")
-		if len(st.Oracle) < 40 {
+		// at most 15 messages per property: one property's messages do not crowd another's out
+		if k := f[:3]; perProp[k] < 15 {
+			perProp[k]++
 			st.Oracle = append(st.Oracle, fmt.Sprintf(f, a...))
 		}
 	}
@@ -314,6 +329,13 @@ func encryptMain(args []string) {
 				rp := &rotPayload{salt: optB(rs, "salt"), info: optB(ri, "info")}
 				if rw != "N" {
 					rp.w = h.wrapper(atoi(rw))
+				}
+				if p.chance(1, 3) {
+					// a filter that filters nothing (every operation overridden to none) consumes a rotation payload
+					// all the same -- and takes the new key material
+					h.f.FilterOperationOverrides = map[encrypt.DataClassification]encrypt.FilterOperation{
+						encrypt.PublicClassification: encrypt.NoOperation, encrypt.SensitiveClassification: encrypt.NoOperation, encrypt.SecretClassification: encrypt.NoOperation}
+					st.hit("rotpayload:all-none")
 				}
 				got, err := h.f.Process(ctx, &eventlogger.Event{Type: "t", Payload: rp})
 				if got != nil || err != nil {
@@ -688,6 +710,7 @@ func encryptMain(args []string) {
 						cl := h.canonLeaf(v, l.plain, l.m, ewi, salts, infos)
 						ls = append(ls, cl)
 						checkKey(cl, l.m)
+
 					}
 					for _, l := range extraLeaves {
 						if v, ok := l.get(ov); ok {
@@ -717,6 +740,40 @@ func encryptMain(args []string) {
 		}
 	}
 	deepShapes(p, *deep, st, oracle)
+	// values that look like the filter's own output ("encrypted:<base64>", "hmac-sha256:<base64 of 32 bytes>"):
+	// byte strings like any other -- what comes out decrypts to them / is their HMAC
+	for r := 0; r < 8; r++ {
+		f := &encrypt.Filter{Wrapper: testWrapper(1), HmacSalt: []byte("s"), HmacInfo: []byte("i")}
+		looksE := "encrypted:" + base64.RawURLEncoding.EncodeToString([]byte(fmt.Sprintf("blob-%d-%d", r, p.intn(1000))))
+		looksH := "hmac-sha256:" + base64.RawURLEncoding.EncodeToString([]byte(fmt.Sprintf("%032d", r)))
+		in := &lookalike{E: looksE, H: looksH, B: []byte(looksE), X: looksH}
+		got, err := f.Process(ctx, &eventlogger.Event{Type: "t", Payload: in, Formatted: map[string][]byte{}})
+		st.Cases++
+		st.Ops++
+		st.hit("lookalike-values")
+		if err != nil || got == nil {
+			oracle("C16 Process failed on values that look like its own output: %v", err)
+			continue
+		}
+		out := got.Payload.(*lookalike)
+		dec := func(v string) (string, bool) {
+			blob := new(wrapping.BlobInfo)
+			raw, derr := base64.RawURLEncoding.DecodeString(strings.TrimPrefix(v, "encrypted:"))
+			if derr != nil || proto.Unmarshal(raw, blob) != nil {
+				return "", false
+			}
+			pt, derr := testWrapper(1).Decrypt(ctx, blob, nil)
+			return string(pt), derr == nil
+		}
+		for name, pair := range map[string][2]string{"E": {out.E, looksE}, "B": {string(out.B), looksE}, "X": {out.X, looksH}} {
+			if pt, ok := dec(pair[0]); !ok || pt != pair[1] {
+				oracle("C16 field %s held a value that looks like the filter's output (%.24q...); what came out does not decrypt to those bytes (decrypted=%v)", name, pair[1], ok)
+			}
+		}
+		if want := indepHmac(keyBytes(1), []byte("s"), []byte("i"), []byte(looksH)); out.H != want {
+			oracle("C16 field H held a value that looks like an HMAC digest; what came out is not HMAC-SHA256 of those bytes")
+		}
+	}
 	// byte strings of a named type under pointer tags (json.RawMessage, a token type of the caller's): what is
 	// encrypted / HMAC-ed is the value's bytes, as for a plain []byte
 	for r := 0; r < 12; r++ {
